@@ -149,7 +149,8 @@ def vbuild(guard=True, extra_cflags=(), tag=""):
     d = os.path.join(CACHE_ROOT, key)
     info = {"dir": d, "aldor": os.path.join(d, "aldor"),
             "libs": [os.path.join(d, l) for l in ("libphase.a", "libstruct.a", "libgen.a", "libport.a")],
-            "rt": os.path.join(d, "libfoam-fresh.a"), "objdir": os.path.join(d, "obj"), "key": key}
+            "rt": os.path.join(d, "libfoam-fresh.a"), "objdir": os.path.join(d, "obj"), "key": key,
+            "view": os.path.join(d, "srcview")}
     if os.path.exists(os.path.join(d, "OK")):
         os.utime(os.path.join(d, "OK"))
         return info
@@ -172,10 +173,28 @@ def vbuild(guard=True, extra_cflags=(), tag=""):
     os.makedirs(os.path.join(tmp, "rt"))
     gen = os.path.join(tmp, "gen")
     _generate_sources(gen)
+    # A view of the source directory in which the generated files (comsgdb.[ch], axl_y.c) are the freshly
+    # generated ones: #include "comsgdb.h" is looked up in the directory of the including file first, so the
+    # stale build products lying in the source directory would otherwise shadow them.
+    view = os.path.join(tmp, "srcview")
+    os.makedirs(os.path.join(view, "java"))
+    generated = set(os.listdir(gen))
+    for sub in ("", "java"):
+        d0 = os.path.join(SRC, sub)
+        for f in os.listdir(d0):
+            src = os.path.join(d0, f)
+            if os.path.isdir(src) or f.endswith((".o", ".a", ".i", ".s")):
+                continue
+            if sub == "" and f in generated:
+                src = os.path.join(gen, f)
+            os.symlink(src, os.path.join(view, sub, f))
+    for f in generated:
+        if not os.path.exists(os.path.join(view, f)):
+            os.symlink(os.path.join(gen, f), os.path.join(view, f))
     am = open(os.path.join(SRC, "Makefile.am")).read()
     groups = {g: _am_sources(am, "lib%s_a_SOURCES" % g) for g in ("port", "gen", "struct", "phase")}
     groups["aldor"] = _am_sources(am, "aldor_SOURCES")
-    cflags = ["-std=c99", "-O0", "-g", "-w", "-I" + gen, "-I.", "-I" + REPO_SRC, "-DVCSVERSION=\"verif\""] + list(extra_cflags)
+    cflags = ["-std=c99", "-O0", "-g", "-w", "-I.", "-I" + REPO_SRC, "-DVCSVERSION=\"verif\""] + list(extra_cflags)
     if guard:
         cflags.append("-D" + GUARD)
     cmds = []
@@ -185,13 +204,13 @@ def vbuild(guard=True, extra_cflags=(), tag=""):
             if s in seen:
                 continue
             seen.add(s)
-            sp = os.path.join(gen, s) if s in ("axl_y.c", "comsgdb.c") else s
+            sp = s
             cmds.append(["gcc"] + cflags + ["-c", sp, "-o", os.path.join(tmp, "obj", s[:-2] + ".o")])
     for s in RUNTIME_C:
         cmds.append(["gcc"] + cflags + ["-DFOAM_RTS", "-c", s, "-o", os.path.join(tmp, "rt", s[:-2] + ".o")])
     rtc = os.path.join(REPO, "aldor/aldor/lib/libfoam/al/runtime.c")
     cmds.append(["gcc"] + cflags + ["-DFOAM_RTS", "-c", rtc, "-o", os.path.join(tmp, "rt", "runtime.o")])
-    _run_many(cmds, SRC)
+    _run_many(cmds, view)
     for g in ("port", "gen", "struct", "phase"):
         objs = [os.path.join(tmp, "obj", s[:-2] + ".o") for s in groups[g]]
         subprocess.check_call(["ar", "rcs", os.path.join(tmp, "lib%s.a" % g)] + objs)
@@ -219,7 +238,8 @@ def harness_build(name, sources, build, extra=(), defines=(), libs=True, replace
     out = os.path.join(build["dir"], "h-%s-%s" % (name, h.hexdigest()[:10]))
     if os.path.exists(out):
         return out
-    cmd = ["gcc", "-std=gnu99", "-O0", "-g", "-w", "-I" + SRC, "-D" + GUARD] + ["-D" + x for x in defines]
+    inc = build.get("view") if build.get("view") and os.path.isdir(build["view"]) else SRC
+    cmd = ["gcc", "-std=gnu99", "-O0", "-g", "-w", "-I" + inc, "-I" + SRC, "-D" + GUARD] + ["-D" + x for x in defines]
     cmd += ["-o", out + ".tmp"] + list(sources) + list(extra)
     if libs:
         cmd += build["libs"]
